@@ -161,6 +161,54 @@ def t_fperr(rng):
     return n
 
 
+def t_fperr_branches(rng):
+    """undecided branches, clamps and inverse trig: |double result - 60-digit result| <= bound, with sample points placed on
+    and next to the branch threshold (where the floating-point and the real decision can differ)"""
+    import mpmath
+    from . import fperr, ir
+    from .interval import IV
+    mpmath.mp.dps = 60
+    n = 0
+    for trial in range(30):
+        x = ca.SX.sym("x", 2)
+        c = rng.uniform(0.2, 0.8)
+        u = x[0] * x[0] + 0.3 * x[1]
+        a = ca.sin(u) / (1 + u * u) + (0.0 if trial % 2 else 1e-9)
+        b = u - u ** 3 / 6 + 0.1 * x[1] * (u - c)
+        kind = trial % 3
+        if kind == 0:
+            e = ca.if_else(u < c, a, b)
+        elif kind == 1:
+            e = ca.asin(ca.fmax(ca.fmin(u * 1.2, 1), -1)) + ca.atan2(x[1] + 2, x[0] + 1.5)
+        else:
+            e = ca.if_else(ca.fabs(u - c) < 1e-3, ca.SX(0.5) + u, ca.acos(ca.fmin(u, 1) * 0.9))
+        g, on, _ = ir.extract({"x": x}, {"e": e})
+        node = on["e"][0][0]
+        box = {("x", 0, 0): IV(0.0, 1.0), ("x", 1, 0): IV(-0.5, 0.5)}
+        guards = fperr.use_guards(g, [node])
+        memo = fperr.analyse(g, [node], box, {}, None, None, guards)
+        val, err = memo[node]
+        assert math.isfinite(err), ("branch analysis gave no bound", trial)
+        f = ca.Function("f", [x], [e])
+        pts = [[rng.uniform(0, 1), rng.uniform(-0.5, 0.5)] for _ in range(6)]
+        # points on the threshold u = c (solve for x0 given x1), perturbed by a few ulps
+        for _ in range(6):
+            x1 = rng.uniform(-0.5, 0.5)
+            t = c - 0.3 * x1
+            if t > 0:
+                x0 = math.sqrt(t)
+                for k in (-2, -1, 0, 1, 2):
+                    pts.append([x0 * (1 + k * 2.0 ** -52), x1])
+        for pt in pts:
+            if not (0 <= pt[0] <= 1):
+                continue
+            dbl = float(f(pt))
+            ref = _mp_eval(g, node, pt, mpmath)
+            assert abs(mpmath.mpf(dbl) - ref) <= err * (1 + 1e-9) + 1e-300, ("fp bound violated at a branch", trial, pt, float(abs(mpmath.mpf(dbl) - ref)), err)
+            n += 1
+    return n
+
+
 def _mp_eval(g, n, pt, mp):
     memo = {}
 
@@ -174,9 +222,15 @@ def _mp_eval(g, n, pt, mp):
         elif op == "CONST":
             v = mp.mpf(payload.numerator) / payload.denominator
         else:
+            def pw():
+                ex = a[1]
+                return a[0] ** int(ex) if ex == int(ex) else a[0] ** ex
             v = {"ADD": lambda: a[0] + a[1], "SUB": lambda: a[0] - a[1], "MUL": lambda: a[0] * a[1], "DIV": lambda: a[0] / a[1], "SQ": lambda: a[0] ** 2,
                  "NEG": lambda: -a[0], "TWICE": lambda: 2 * a[0], "SIN": lambda: mp.sin(a[0]), "COS": lambda: mp.cos(a[0]), "SQRT": lambda: mp.sqrt(a[0]),
-                 "INV": lambda: 1 / a[0]}[op]()
+                 "INV": lambda: 1 / a[0], "ASIN": lambda: mp.asin(a[0]), "ACOS": lambda: mp.acos(a[0]), "ATAN": lambda: mp.atan(a[0]),
+                 "ATAN2": lambda: mp.atan2(a[0], a[1]), "FMIN": lambda: min(a[0], a[1]), "FMAX": lambda: max(a[0], a[1]), "FABS": lambda: abs(a[0]),
+                 "LT": lambda: mp.mpf(1 if a[0] < a[1] else 0), "LE": lambda: mp.mpf(1 if a[0] <= a[1] else 0), "NOT": lambda: mp.mpf(0 if a[0] != 0 else 1),
+                 "IF_ELSE_ZERO": lambda: a[1] if a[0] != 0 else mp.mpf(0), "POW": pw, "CONSTPOW": pw}[op]()
         memo[k] = v
         return v
 
@@ -215,7 +269,8 @@ def main():
     rng = random.Random(int(__import__("os").environ.get("VERIF_SEED", "0") or 0))
     ok = True
     for name, fn in (("ring normal forms vs sympy", t_ring), ("lowering vs CasADi numeric", t_lower), ("Taylor/Laurent forms vs mpmath", t_taylor),
-                     ("floating-point error bounds vs mpmath", t_fperr), ("C translation validation", t_tv)):
+                     ("floating-point error bounds vs mpmath", t_fperr), ("floating-point bounds at branches / clamps / inverse trig", t_fperr_branches),
+                     ("C translation validation", t_tv)):
         t0 = time.time()
         try:
             n = fn(rng)
